@@ -27,7 +27,7 @@ type c06Case struct {
 	ExtraVols  []string
 	ClaimNS    string
 	TmplIdent  bool  // the pod template itself names a hostname and a subdomain (ordinary PodSpec fields)
-	Presence   []int // per (ordinal, template): 0 neither, 1 API only (stale cache), 2 API and cache
+	Presence   []int // per (ordinal, template): 0 neither, 1 API only (stale cache), 2 API and cache, 3 API and cache but provisioned by hand (none of the labels the controller would give it)
 	Fault      world.FaultPlan
 	LookupFail string
 }
@@ -74,8 +74,11 @@ func (c c06Case) build(w *world.World) *world.State {
 				continue
 			}
 			pvc := &v1.PersistentVolumeClaim{ObjectMeta: metav1.ObjectMeta{Name: n, Namespace: world.NS, UID: types.UID("uid-" + n), ResourceVersion: "1", Labels: map[string]string{"app": "web"}}}
+			if pres == 3 {
+				pvc.Labels = map[string]string{"provisioned-by": "admin"}
+			}
 			st.API.PVCs[n] = pvc
-			if pres == 2 {
+			if pres >= 2 {
 				st.Cache.PVCs[n] = pvc
 			}
 		}
@@ -275,7 +278,7 @@ func init() {
 								pats = append(pats, append([]int{}, cur...))
 								return
 							}
-							for v := 0; v < 3; v++ {
+							for v := 0; v < 4; v++ {
 								recp(append(cur, v))
 							}
 						}
@@ -288,7 +291,7 @@ func init() {
 							}
 							pats = append(pats, bp)
 							for i := 0; i < nClaims; i++ {
-								for v := 0; v < 3; v++ {
+								for v := 0; v < 4; v++ {
 									if v == b {
 										continue
 									}
@@ -357,7 +360,7 @@ func init() {
 			rep.AddStates(n, n)
 			rep.Extra["population_grid_cases"] = n
 		}
-		rep.Rule = "the real pod control on the API model: set names {web, web-1, a, x-0-y} x claim-template lists {none, 1, 2, 3 templates, own labels, a template named like a volume of the pod template, extra template volumes, templates carrying a metadata.namespace of their own} x policy {Parallel: 3 pods created in one reconcile; OrderedReady: the last of 3} x claim presence per (ordinal, template) in {absent, in the API only (stale cache), in API and cache} (full product up to 6 claims, thorough 9; beyond that all single deviations from all-absent and all-present) x a single fault (InternalError, AlreadyExists, lost response) on every claim create and every pod create, and a lookup failure on every claim; plus scale-in at each ordinal followed by scale-out under both policies. Oracle on every created pod: name, namespace, hostname, subdomain, pod-name label, revision label naming a stored revision with the pod's template, controller owner reference, one volume per claim template bound to T-S-i, template volumes kept, every claim exists before the pod create, created claims carry the selector labels, a failed claim create/lookup prevents the pod create; no update/patch/delete on claims; claims keep their identity across scale-in/out. The same monitor also judges every pod create of the shallow population grid of C03 (pods re-created below / above a partition with 1-3 revisions in flight). Non-trivial = at least one write."
+		rep.Rule = "the real pod control on the API model: set names {web, web-1, a, x-0-y} x claim-template lists {none, 1, 2, 3 templates, own labels, a template named like a volume of the pod template, extra template volumes, templates carrying a metadata.namespace of their own} x policy {Parallel: 3 pods created in one reconcile; OrderedReady: the last of 3} x claim presence per (ordinal, template) in {absent, in the API only (stale cache), in API and cache, in API and cache but provisioned by hand without the labels the controller gives} (full product up to 6 claims, thorough 9; beyond that all single deviations from all-absent and all-present) x a single fault (InternalError, AlreadyExists, lost response) on every claim create and every pod create, and a lookup failure on every claim; plus scale-in at each ordinal followed by scale-out under both policies. Oracle on every created pod: name, namespace, hostname, subdomain, pod-name label, revision label naming a stored revision with the pod's template, controller owner reference, one volume per claim template bound to T-S-i, template volumes kept, every claim exists before the pod create, created claims carry the selector labels, a failed claim create/lookup prevents the pod create; no update/patch/delete on claims; claims keep their identity across scale-in/out. The same monitor also judges every pod create of the shallow population grid of C03 (pods re-created below / above a partition with 1-3 revisions in flight). Non-trivial = at least one write."
 		rep.Validated = rep.States
 		return rep.Finish()
 	})
